@@ -186,16 +186,24 @@ def r07_2(ctx: Ctx, rep: Report) -> None:
     appends = [n for n in cfg.live if n.kind == "stmt" and n.ast is not None and any(isinstance(x, ast.Call) and isinstance(x.func, ast.Attribute) and x.func.attr == "append" and src(x.func.value) == acc for x in ast.walk(n.ast))]
     rep.instance(len(appends))
     rep.floor(1, "appends to the ACL list")
+    # the requested names and every local computed from them (`wanted = None if names is None else [str(s) for s in names]`)
+    filt = {"names"}
+    for _ in range(3):
+        for x in own_nodes(f.node):
+            if isinstance(x, (ast.Assign, ast.AnnAssign)) and x.value is not None:
+                t = x.targets[0] if isinstance(x, ast.Assign) else x.target
+                if isinstance(t, ast.Name) and names_in(x.value) & filt:
+                    filt.add(t.id)
     for a in appends:
         deps = cfg.transitive_control_deps(a)
         # the filter is `names is None or name in names`: either disjunct true lets the item through
-        none_t = [c for c, lab in deps if c.kind == "cond" and isinstance(c.ast, ast.Compare) and isinstance(c.ast.ops[0], ast.Is) and src(c.ast.left) == "names" and lab == "T"]
-        in_t = [c for c, lab in deps if c.kind == "cond" and isinstance(c.ast, ast.Compare) and isinstance(c.ast.ops[0], ast.In) and src(c.ast.comparators[0]) == "names" and lab == "T"]
+        none_t = [c for c, lab in deps if c.kind == "cond" and isinstance(c.ast, ast.Compare) and isinstance(c.ast.ops[0], ast.Is) and src(c.ast.left) in filt and lab == "T"]
+        in_t = [c for c, lab in deps if c.kind == "cond" and isinstance(c.ast, ast.Compare) and isinstance(c.ast.ops[0], ast.In) and src(c.ast.comparators[0]) in filt and lab == "T"]
         # reachable only through one of the two held edges
         from .common import reachable_without_edges
 
-        conds_none = [c for c in cfg.live if c.kind == "cond" and isinstance(c.ast, ast.Compare) and isinstance(c.ast.ops[0], (ast.Is, ast.IsNot)) and src(c.ast.left) == "names"]
-        conds_in = [c for c in cfg.live if c.kind == "cond" and isinstance(c.ast, ast.Compare) and isinstance(c.ast.ops[0], (ast.In, ast.NotIn)) and src(c.ast.comparators[0]) == "names" and src(c.ast.left) == "name"]
+        conds_none = [c for c in cfg.live if c.kind == "cond" and isinstance(c.ast, ast.Compare) and isinstance(c.ast.ops[0], (ast.Is, ast.IsNot)) and src(c.ast.left) in filt]
+        conds_in = [c for c in cfg.live if c.kind == "cond" and isinstance(c.ast, ast.Compare) and isinstance(c.ast.ops[0], (ast.In, ast.NotIn)) and src(c.ast.comparators[0]) in filt and src(c.ast.left) == "name"]
         cut = {(c.id, "T" if isinstance(c.ast.ops[0], ast.Is) else "F") for c in conds_none} | {(c.id, "T" if isinstance(c.ast.ops[0], ast.In) else "F") for c in conds_in}
         loop = [n for n in cfg.live if n.kind == "for"]
         start = [s for lab, s in loop[0].succ if lab == "body"][0] if loop else cfg.entry
